@@ -13,7 +13,8 @@ PROPS["C18"] = dict(
     technique="property-based round-trip testing (rapid) + differential against encoding/json; native fuzz of the parse/write fixpoint",
     rule="rapid-generated recursive values over {null,bool,int kinds,non-integral finite float64,valid UTF-8 strings from a hostile pool,"
          " Symbol,Var,lists,maps} x indent in {-3,-1,0,1..4} x Sort on/off; SDL round-trip (name keys), JSON re-parse by ggql and by"
-         " encoding/json (arbitrary string keys, invalid UTF-8 -> U+FFFD). Non-trivial = (nesting>=2 with a container adjacent to a"
+         " encoding/json (arbitrary string keys, invalid UTF-8 -> U+FFFD); one case in six is wide (20-300 sibling values, containers among"
+         " them) or deep (a chain of 5-200 containers). Non-trivial = (nesting>=2 with a container adjacent to a"
          " sibling) or a string/key needing an escape; distinct = SHA-1 of the case JSON.",
     level_text="Generated-input search over the whole value domain of the statement with three independent oracles (ggql reader,"
                " encoding/json, canonical comparison). It cannot prove absence; it is the right level because the property is a pure"
@@ -61,7 +62,8 @@ PROPS["C09"] = dict(
     rule="Table = {absent, literal true/false, variable true/false, variable defaulted true/false} for @skip x the same for @include x both"
          " textual orders x {field, inline fragment, fragment spread} = 255 rows. Part 1 enumerates every row on every selection of its kind"
          " of a fixed 3-level context under each strategy (exhaustive). Part 2 draws a row and plants it in a rapid-generated schema/data/"
-         "document (any depth, inside lists, other directives around). Oracle: data equals the reference (present iff no @skip true and no"
+         "document (any depth, inside lists, other directives around; one case in six pads the selection sets that hold a conditioned"
+         " selection with 40-140 more members in front of it). Oracle: data equals the reference (present iff no @skip true and no"
          " @include false) and every logged resolver call is one the reference reaches. Non-trivial = some selection carries both directives.",
     level_text="The directive table itself is finite and is enumerated completely (exhaustive=true refers to that table in the fixed context);"
                " the embedding contexts are sampled. Enumeration is the right level for the finite part, exploration for the contexts.",
@@ -392,7 +394,7 @@ PROPS["C19"] = dict(
          " exactly once per removed subscriber and never for a live one. Non-trivial = history has a publish with >= 2 matches, a failing"
          " delivery and an unsubscribe of a proper subset.",
     level_text="Histories are sampled; every step is checked exactly against the model.",
-    level_note="Trusted: the list model, the reference executor for payloads. Selections carry no variables (AddEvent resolves with an empty variable map).",
+    level_note="Trusted: the list model, the reference executor for payloads. One selection in four carries a key whose presence depends on a variable of the subscription request (given or defaulted), the reference applies the selection with that request's variables.",
     assumptions=EXEC_ASSUME + ["one subscription field per subscription request (the registration order of two fields of one request follows Go map order)"],
     design_ref="DESIGN.md section 5 C19",
 )
